@@ -147,6 +147,7 @@ def main(modname):
 
     t0 = time.time()
     problems = []
+    os.environ.setdefault('VERIF_XCHECK', '40' if args.tier == 'thorough' else '6')     # cvc5 re-decides this many VC queries per worker
     # 1. Serval-style validation of the encoding: concrete inputs through the shimmed path vs plain NumPy
     val = {}
     try:
@@ -224,6 +225,11 @@ def main(modname):
     cov['candidates'] = dict(raised=int(total.get('#candidates')), reproduced=len(violations) + len(known_hits),
                              not_reproduced=len(unreproduced))
     cov['encoding_validation'] = val
+    cov['cross_solver'] = dict(solver='cvc5 (Python API) on the SMT-LIB dump of sampled z3 QF_LRA VC queries', queries=int(total.get('xcheck_queries')),
+                               agree=int(total.get('xcheck_agree')), cvc5_unknown=int(total.get('xcheck_cvc5_unknown')),
+                               disagreements=total.l.get('xcheck_disagreements', []), seconds=round(total.get('xcheck_seconds'), 1))
+    if total.l.get('xcheck_disagreements'):
+        problems.append(f"cross-solver disagreement on {len(total.l['xcheck_disagreements'])} VC queries: {total.l['xcheck_disagreements'][:3]}")
     cov['problems'] = problems
     os.makedirs(os.path.join(VERIF, 'evidence'), exist_ok=True)
     with open(os.path.join(VERIF, 'evidence', f'{pid}.json'), 'w') as f:
